@@ -5,13 +5,18 @@
 exception Bad of string
 
 let parse_req (t : string) : req =
+  (* an optional 6th character selects the text of the scripted errors: not a model input *)
+  let t = if String.length t = 6 && t.[5] >= '0' && t.[5] <= '4' then String.sub t 0 5 else t in
   if String.length t <> 5 then raise (Bad t);
   let has set c = String.contains set c in
   let q = t.[1] and s = t.[3] in
   if not (has "PESHABCD" q) || not (has "PEHA" s) then raise (Bad t);
   { r_mode = (match t.[0] with 'g' -> Plain | 'b' -> ConnectBlind | 'm' -> ConnectMitm | _ -> raise (Bad t));
     q_hij = has "HACD" q; q_err = has "EABD" q; q_skip = has "SBCD" q;
-    r_rt = (match t.[2] with 'O' -> RtOk | 'C' -> RtClone | 'N' -> RtNil | 'F' -> RtFail | _ -> raise (Bad t));
+    (* R = answered through a real transport by a real origin; E T U X = kinds of round trip error
+       (io.EOF, timeout, unexpected EOF, deadline exceeded); Q S = real origin closes / never answers *)
+    r_rt = (match t.[2] with 'O' | 'R' -> RtOk | 'C' -> RtClone | 'N' -> RtNil
+                           | 'F' | 'E' | 'T' | 'U' | 'X' | 'Q' | 'S' -> RtFail | _ -> raise (Bad t));
     s_hij = has "HA" s; s_err = has "EA" s;
     r_close = (match t.[4] with 'k' -> false | 'c' -> true | _ -> raise (Bad t)) }
 
@@ -69,6 +74,7 @@ let clause_name = function
   | CError -> "error_is_warning_and_continues"
   | CSkip -> "skip_means_no_upstream_and_200_through_resmod"
   | CScope -> "modifier_called_only_for_requests_read"
+  | CRelay -> "upstream_contacted_and_status_is_origins"
 
 let judge _name ins outs =
   (* a leading D = downstream proxy configured: connect() sends the CONNECT to that
@@ -96,7 +102,8 @@ let judge _name ins outs =
         let culprit =
           let chk q e = match c with
             | CSkip -> cl_skip_ex q e | CError -> cl_error_ex q e
-            | CResmod -> cl_resmod_ex q e | CReqmod -> cl_reqmod_ex e | _ -> true in
+            | CResmod -> cl_resmod_ex q e | CReqmod -> cl_reqmod_ex e
+            | CRelay -> cl_relay_ex q e | _ -> true in
           let all_ev = List.concat ts in
           let rec go k = function
             | [] -> "req=- tok=-"
